@@ -5,11 +5,13 @@ import (
 	"errors"
 	"fmt"
 	"io"
+	iofs "io/fs"
 	"math/rand"
 	"net/http"
 	"net/http/httptest"
 	"net/url"
 	"strings"
+	"testing/fstest"
 
 	"github.com/labstack/echo/v4"
 	"github.com/labstack/echo/v4/middleware"
@@ -80,6 +82,33 @@ func genC13(rng *rand.Rand, n int, emit func(Case), dist map[string]int) {
 				return served
 			}
 			dist["basicauth_as_route_middleware_of_group"]++
+		} else if rng.Intn(4) == 0 {
+			// BasicAuth as the middleware of a GROUP; the protected routes are registered through the group's different
+			// registration helpers (per-method, Match, Any, Add, the file-serving ones): none of them may lose the group's middleware
+			em := echo.New()
+			em.Logger.SetOutput(io.Discard)
+			var served error
+			em.HTTPErrorHandler = func(err error, c echo.Context) { served = err }
+			g := em.Group("/admin", middleware.BasicAuth(func(u, p string, c echo.Context) (bool, error) {
+				bcalls = append(bcalls, [2]string{u, p})
+				return bval(u, p)
+			}))
+			hnd := func(c echo.Context) error { ranB = true; return nil }
+			g.GET("/get", hnd)
+			g.Match([]string{"GET", "POST"}, "/match", hnd)
+			g.Any("/any", hnd)
+			g.Add("GET", "/add", hnd)
+			g.StaticFS("/files", c13FS(func() { ranB = true }))
+			g.FileFS("/file", "f", c13FS(func() { ranB = true }))
+			paths := []string{"/admin/get", "/admin/match", "/admin/any", "/admin/add", "/admin/files/f.txt", "/admin/file"}
+			bmw = func(c echo.Context) error {
+				served = nil
+				r := c.Request().Clone(c.Request().Context())
+				r.URL.Path = paths[rng.Intn(len(paths))]
+				em.ServeHTTP(httptest.NewRecorder(), r)
+				return served
+			}
+			dist["basicauth_as_group_middleware_all_registration_helpers"]++
 		}
 		kval := func(k string) (bool, error) {
 			if k == "boom" {
@@ -143,7 +172,7 @@ func genC13(rng *rand.Rand, n int, emit func(Case), dist map[string]int) {
 				b64 := base64.StdEncoding.EncodeToString([]byte(cred))
 				var hdrs []string
 				mk := func() string {
-					switch rng.Intn(16) {
+					switch rng.Intn(18) {
 					case 0:
 						return "basic " + b64
 					case 1:
@@ -170,6 +199,10 @@ func genC13(rng *rand.Rand, n int, emit func(Case), dist map[string]int) {
 						return "Basic " + b64 + " "
 					case 12:
 						return ""
+					case 13:
+						return "bas\u0130c" + b64 // (a scheme that only LOOKS like basic after Unicode case mapping: U+0130 lower-cases to "i")
+					case 14:
+						return "BAS\u0130C " + b64
 					}
 					return "Basic " + b64
 				}
@@ -490,4 +523,14 @@ func genC13(rng *rand.Rand, n int, emit func(Case), dist map[string]int) {
 			emit(cs)
 		}
 	}
+}
+
+// c13FS: a file system whose every name is a small regular file; opening one reports that the (file-serving) handler ran
+type c13FS func()
+
+var c13Files = fstest.MapFS{"f": &fstest.MapFile{Data: []byte("protected")}}
+
+func (f c13FS) Open(name string) (iofs.File, error) {
+	f()
+	return c13Files.Open("f")
 }
